@@ -202,12 +202,44 @@ def run(ctx, chk, tier="quick"):
                    why="0.3 % 0.1 == 0.0999...: a one-sided remainder test refuses about half of the on-grid levels")
         desc["gridtest"] = shape
         wn = [flow.cfg.node_containing(s.call) for s in ins]
-        dom = all(flow.cfg.dominates(g.node, n) for n in wn)
+        # on every path that converts an explicit reference to an index, the rejection is passed before any INSERT:
+        # no path entry -> (explicit conversion) -> INSERT avoids the guard
+        cfg = flow.cfg
+        enode = cfg.node(kinds["explicit"][2]) if "explicit" in kinds else None
+        if enode is not None:
+            from ..cfg import ENTRY
+            reach_e = enode in cfg.reachable_from(ENTRY, avoiding={g.node}) or enode == ENTRY
+            after_e = cfg.reachable_from(enode, avoiding={g.node})
+            dom = not (reach_e and any(n in after_e for n in wn))
+        else:
+            dom = all(cfg.dominates(g.node, n) for n in wn)
         chk.ob("C09.O3", dom and g.kind in ("if-raise", "else-raise"), where_of(f, g.stmt),
-               "rejection (%s) dominates %d/%d INSERTs into %s, %s" % (g.kind, sum(1 for n in wn if flow.cfg.dominates(g.node, n)), len(wn), tab, ztab),
+               "rejection (%s): %s" % (g.kind, "no path converts an explicit reference and reaches an INSERT without passing it" if dom
+                                      else "a path converts the reference to an index and reaches an INSERT into %s / %s without passing it" % (tab, ztab)),
                "raise before anything is written", key="%s|rejection-dominates" % fq,
                why="a rejection after the first INSERT leaves rows behind unless the caller rolls back")
         desc["dominates"] = dom
+        # the explicit branch is selected by `is not None`, not by truthiness (a reference of 0 is a valid level)
+        if "explicit" in kinds:
+            est = kinds["explicit"][2]
+            sel = None
+            a = getattr(est, "parent", None)
+            while a is not None and a is not f.node:
+                if isinstance(a, ast.If) and ref in {x.id for x in ast.walk(a.test) if isinstance(x, ast.Name)}:
+                    sel = a
+                    break
+                a = getattr(a, "parent", None)
+            if sel is not None:
+                t = sel.test
+                none_test = any(isinstance(c, ast.Compare) and isinstance(c.ops[0], (ast.IsNot, ast.Is, ast.NotEq, ast.Eq))
+                                and any(isinstance(x, ast.Constant) and x.value is None for x in c.comparators)
+                                and isinstance(c.left, ast.Name) and c.left.id == ref for c in ast.walk(t))
+                bare = any(isinstance(x, ast.Name) and x.id == ref and not isinstance(getattr(x, "parent", None), (ast.Compare, ast.Call, ast.BinOp))
+                           for x in ast.walk(t)) or (isinstance(t, ast.Name) and t.id == ref)
+                chk.ob("C09.O1", none_test and not bare, where_of(f, sel), "explicit reference selected by `%s`" % ast.unparse(t),
+                       "`reference is not None`: zero is a valid reference level", key="%s|reference-selected-by-none-test" % fq,
+                       why="0.0 is falsy: `if reference:` silently treats the level 0 (a multiple of every step) as 'no reference'")
+                desc["none_test"] = none_test and not bare
         descriptors[label] = desc
 
     # ---- O5 siblings
